@@ -201,6 +201,9 @@ class Check(PropertyCheck):
             fails += self.oracle(texts[k:k + 4000])
         return shrink_all(self, fails)
 
+    def oracle_on_texts(self, texts):
+        return self.oracle([t for t in texts if "{" not in t and "# Legend:" not in t])
+
     def replay_case(self, case):
         return self.oracle([case["input"]])
 
